@@ -206,6 +206,23 @@ def run(ctx, progs):
                     src = a[0]
                     ok = match(F(P(1), "nelem"), lim, {}) and is_call(src, "slice::iter", "slice::iter_mut") and unref(src[2][0])[:2] == ('param', 2)
                     d = f"loop over buf.iter{'_mut' if nm == 'copy_to' else ''}().take(self.nelem): bounded by both sides [{ok}]"
+                if not ok and not tk:
+                    # the same bound written as a sub-slice: `for v in &[mut] buf[..min(buf.len(), self.len())]`
+                    for c in b.calls():
+                        if canon(c.target or "").endswith("::next"):
+                            it = unref(c.args()[0])
+                            while it[0] == 'call' and canon(it[1]).split("::")[-1] in ("into_iter", "iter", "iter_mut") and it[2]:
+                                it = unref(it[2][0])
+                            if it[0] == 'call' and canon(it[1]).split("::")[-1] in ("index", "index_mut") and len(it[2]) == 2 and unref(it[2][0])[:2] == ('param', 2):
+                                r = unref(it[2][1])
+                                if r[0] == 'agg' and str(r[1]).endswith("RangeTo") and len(r[3]) == 1:
+                                    lim = eff.inline(r[3][0])
+                                    if is_call(lim, "min") and len(lim[2]) == 2:
+                                        xs = [unref(eff.inline(x)) for x in lim[2]]
+                                        has_n = any(match(F(P(1), "nelem"), x, {}) for x in xs)
+                                        has_b = any(is_call(x, "slice::len") and unref(x[2][0])[:2] == ('param', 2) for x in xs)
+                                        ok = has_n and has_b
+                                        d = f"loop over buf[..min(buf.len(), self.nelem)]: bounded by both sides [{ok}]"
                 adds = [c for c in b.calls() if re.search(r"(const_ptr|mut_ptr)::add$", canon(c.target or "")) and unref(c.args()[1]) == ('const', 1)]
                 ctx.ob("R4.2.element_loop", b.key, ok and len(adds) == 1, b.where(), d + f"; pointer advanced by one element per iteration [{len(adds) == 1}]")
                 if nm == "copy_to":
